@@ -67,6 +67,7 @@ Presents1 == { Present1 }
 Present3 == { <<"", "r1", "root">>, <<"L1", "r1", "a">>, <<"L2", "r1", "a">>, <<"L2", "r1", "b">>, <<"L1", "r2", "b">> }
 Present4 == { <<"", "r1", "root">>, <<"", "r1", "a">>, <<"L1", "r1", "a">>, <<"L2", "r2", "b">>, <<"L1", "r1", "b">> }
 PresentsLocs == { Present2, Present3, Present4 }
-TplLocs == { B("", "f", "p", L("1")), [t |-> "include", file |-> "a", lines |-> 1], [t |-> "include", file |-> "b", lines |-> 1] }
+TplLocs == { B("", "f", "p", L("1")), [t |-> "include", file |-> "a", lines |-> 1], [t |-> "include", file |-> "b", lines |-> 1],
+             [t |-> "include", file |-> "nofile", lines |-> 1] }        \* a file found first whose own include cannot be read
 MaxLocs == [n \in Files3 |-> CASE n = "root" -> 2 [] n = "a" -> 1 [] n = "b" -> 1 [] n = "p" -> 0]
 =============================================================================
